@@ -29,7 +29,16 @@ pub enum Case {
     ValveChallenge { st: A2sState },
     Gs3Challenge { st: Gs3State },
     /// Java handshake fields: host name, protocol version (through RequestSettings or ExtraRequestSettings), port
-    Java { status: JavaStatus, hostname: Option<String>, protocol_version: Option<i32>, port: u16, via_extra: bool },
+    Java {
+        status: JavaStatus,
+        hostname: Option<String>,
+        protocol_version: Option<i32>,
+        port: u16,
+        via_extra: bool,
+        /// 0 query_java, 1 the auto-detecting protocol query, 2 / 3 the generic query of the `minecraftjava` / auto-detecting `minecraft` definitions
+        #[serde(default)]
+        route: u8,
+    },
     /// Eco over HTTP (real loopback server: ureq bypasses the scripted transport): request line and Host header
     Eco { v6: bool, hostname: Option<String>, via_generic: bool, idx: u64 },
 }
@@ -168,8 +177,9 @@ impl Prop for C09 {
             prop::option::of(any::<i32>()),
             any::<u16>(),
             any::<bool>(),
+            0u8 .. 4,
         )
-            .prop_map(|(status, hostname, protocol_version, port, via_extra)| Case::Java { status, hostname, protocol_version, port, via_extra });
+            .prop_map(|(status, hostname, protocol_version, port, via_extra, route)| Case::Java { status, hostname, protocol_version, port, via_extra, route });
         let eco = (any::<bool>(), prop::option::of(prop_oneof![Just("eco.example.net".to_string()), "[a-z]([a-z0-9-]{0,20}[a-z0-9])?(\\.[a-z][a-z0-9]{0,9}){0,3}".prop_map(|s| s)]), any::<bool>(), 0u64 .. 64)
             .prop_map(|(v6, hostname, via_generic, idx)| Case::Eco { v6, hostname, via_generic, idx });
         prop_oneof![24 => game, 12 => valve, 8 => gs3, 8 => java, 1 => eco].boxed()
@@ -329,8 +339,9 @@ impl Prop for C09 {
                     o.fail("C09|eco::query|http request|Host header", detail);
                 }
             }
-            Case::Java { status, hostname, protocol_version, port, via_extra } => {
-                o.label(if *via_extra { "java-settings-via-extra" } else { "java-settings-direct" });
+            Case::Java { status, hostname, protocol_version, port, via_extra, route } => {
+                o.label(if *via_extra || *route >= 2 { "java-settings-via-extra" } else { "java-settings-direct" });
+                o.label(["java-route=query_java", "java-route=protocol::query (auto-detect)", "java-route=games::query[minecraftjava]", "java-route=games::query[minecraft] (auto-detect)"][(*route).min(3) as usize]);
                 o.nontrivial = hostname.is_some() || protocol_version.is_some();
                 let addr = SocketAddr::new(doc_ip(), *port);
                 let spec = McServerSpec {
@@ -353,10 +364,22 @@ impl Prop for C09 {
                 } else {
                     Some(minecraft::RequestSettings { hostname: want_host.clone(), protocol_version: want_pv })
                 };
-                let run = run_scripted(fs.responder(), || minecraft::protocol::query_java(&addr, None, settings).map(|_| ()));
+                let mut extra = ExtraRequestSettings::default();
+                extra.hostname = hostname.clone();
+                extra.protocol_version = *protocol_version;
+                let ip = addr.ip();
+                let run = run_scripted(fs.responder(), || {
+                    match *route {
+                        0 => minecraft::protocol::query_java(&addr, None, settings).map(|_| ()),
+                        1 => minecraft::protocol::query(&addr, None, settings).map(|_| ()),
+                        2 => gamedig::query_with_timeout_and_extra_settings(&GAMES["minecraftjava"], &ip, Some(*port), None, Some(extra.clone())).map(|_| ()),
+                        _ => gamedig::query_with_timeout_and_extra_settings(&GAMES["minecraft"], &ip, Some(*port), None, Some(extra.clone())).map(|_| ()),
+                    }
+                });
                 let expected = fs.expected_requests(Family::McJava, Gather { players: 1, rules: 1 }, false);
+                let name = ["minecraft::query_java", "minecraft::protocol::query", "games::query[minecraftjava]", "games::query[minecraft]"][(*route).min(3) as usize];
                 if let Err((what, detail)) = check_sends(&run.log, &expected, addr, Some((want_pv, &want_host))) {
-                    o.fail(format!("C09|minecraft::query_java|{what}"), json!({"detail": detail, "wire": render_log(&run.log[.. run.log.len().min(12)])}));
+                    o.fail(format!("C09|{name}|{what}"), json!({"detail": detail, "wire": render_log(&run.log[.. run.log.len().min(12)])}));
                 }
             }
         }
